@@ -29,7 +29,7 @@ def main():
             checks = args.pop(0).split(",")
         elif a == "--needs":
             needs = args.pop(0)
-    src = f"/tmp/wt/{pid}.out/{n}"
+    src = f"{os.environ.get('SEED_SRC', '/tmp/wt')}/{pid}.out/{n}"
     patch = os.path.join(src, "patch.diff")
     demo = None
     for cand in ("demo_test.go", "demo/main.go", "demo.go", "main.go"):
@@ -69,7 +69,7 @@ def main():
             os.remove(demo_dst)
             return rc, o
 
-        res = {"property": pid, "id": f"{pid}-{n}"}
+        res = {"property": pid, "id": f"{pid}-{os.environ.get('SEED_TAG', '')}{n}"}
         # clean tree: demo passes
         if demo:
             rc, o = run_demo()
@@ -108,7 +108,7 @@ def main():
         res["confirmed"] = ok
         print(json.dumps({k: res[k] for k in ("id", "confirmed", "suite_with_change", "demo_on_clean_tree", "demo_with_change", "caught_by") if k in res}))
         if ok:
-            dst = f"/verif/seeded/{pid}-{n}"
+            dst = f"/verif/seeded/{pid}-{os.environ.get('SEED_TAG', '')}{n}"
             os.makedirs(dst, exist_ok=True)
             shutil.copy(patch, os.path.join(dst, "patch.diff"))
             if demo:
